@@ -109,7 +109,10 @@ def o_verify(ctx, case):
             reason = "aggregate not a canonical subgroup encoding"
         elif B.signature_point(agg) != expected_sum(suite, dst, pks, dlogs, msgs):
             reason = "aggregate is not the sum of the signers' signatures"
+        pks_before, msgs_before = list(pks), list(msgs)
         got = S.AggregateVerify(pks, msgs, agg)
+        ctx.check(pks == pks_before and msgs == msgs_before, "verify", "argument_lists_changed", case,
+                  "AggregateVerify re-ordered or changed the lists it was given")
     else:
         m = msgs[0]
         if len(pks) < 1:
@@ -176,7 +179,12 @@ def o_aggregate(ctx, case):
         ctx.nontrivial(("a", suite, case["sigs"]))
         return
     want = B.signature_bytes(blssig.aggregate_points([B.signature_point(s) for s in sigs]))
+    sigs_before = list(sigs)
     got = S.Aggregate(sigs)
+    ctx.check(sigs == sigs_before, "aggregate", "argument_list_changed", case, "Aggregate changed the list it was given")
+    if len(sigs) >= 2:
+        ctx.check(S.Aggregate(tuple(sigs)) == got, "aggregate", "tuple_vs_list", case,
+                  "Aggregate of a tuple differs from Aggregate of the same list")
     ctx.check(isinstance(got, bytes) and got == want, "aggregate", "value", case,
               f"Aggregate = {got.hex() if isinstance(got, bytes) else got!r}, group sum = {want.hex()}")
     perm = case.get("perm")
